@@ -264,7 +264,8 @@ func (b *Bundle) Hold(holder string, leaf jx.Obj, depth int, key string) jx.Obj 
 	return cur
 }
 
-var auxFiles = []string{"sub/a.json", "sub/deep/b.json", "other/c.json"}
+// "sub/root.json" has the same base name as the root document
+var auxFiles = []string{"sub/a.json", "sub/deep/b.json", "other/c.json", "sub/root.json"}
 
 // relRef renders a reference from file `from` ("" = root) to file `to`.
 func relRef(from, to string) string {
@@ -286,7 +287,7 @@ func relRef(from, to string) string {
 	return strings.Join(parts, "/")
 }
 
-var BundleTargets = []string{"localDef", "remoteDef", "remoteChain", "remoteRecursive", "remoteCrossFileCycle", "remoteSiblingCircular", "selfRecursive", "mutualRecursive", "arrayOfSelf", "mapOfSelf",
+var BundleTargets = []string{"localDef", "remoteDef", "remoteChain", "remoteRecursive", "remoteCrossFileCycle", "remoteSiblingCircular", "remoteSameNameDocs", "selfRecursive", "mutualRecursive", "arrayOfSelf", "mapOfSelf",
 	"anonProperty", "anonItems", "anonAllOf", "anonAdditionalProperties", "anonSharedParam", "anonSharedResponse",
 	"inlineObject", "inlineTuple", "inlineAllOf"}
 
@@ -347,6 +348,16 @@ func (b *Bundle) Target(kind, name string) string {
 		b.AuxDef("sub/deep/b.json", y, jx.Obj{"type": "object", "description": b.lbl("cy"), "properties": jx.Obj{"x": jx.Obj{"$ref": "../a.json#/definitions/" + jx.EscTok(x)}}})
 		b.Tag("cycle")
 		return "sub/a.json#/definitions/" + jx.EscTok(x)
+	case "remoteSameNameDocs":
+		// two auxiliary documents with the same file name in a directory and in its parent, each with a (different,
+		// $ref-free) definition of the same name: "../defs.json#/..." and "defs.json#/..." must not be confused
+		th, tag := nm("Thing"), b.lbl("Tag")
+		b.AuxDef("sub/deep/aux1.json", th, jx.Obj{"type": "object", "description": b.lbl("snd"), "properties": jx.Obj{
+			"far":  jx.Obj{"$ref": "../defs.json#/definitions/" + jx.EscTok(tag)},
+			"near": jx.Obj{"$ref": "defs.json#/definitions/" + jx.EscTok(tag)}}})
+		b.AuxDef("sub/defs.json", tag, jx.Obj{"type": "string", "maxLength": float64(8), "description": b.lbl("far")})
+		b.AuxDef("sub/deep/defs.json", tag, jx.Obj{"type": "integer", "format": "int32", "description": b.lbl("near")})
+		return "sub/deep/aux1.json#/definitions/" + jx.EscTok(th)
 	case "remoteSiblingCircular":
 		// a self-recursive definition of sub/a.json, reached from the root as sub/a.json#/... and from its sibling sub/s.json as a.json#/...
 		x, sname := nm("SibX"), b.lbl("SibS")
